@@ -53,8 +53,8 @@ def _shapes(tier):
                 for opening in (0, 1):
                     for pickup in (0, 1):
                         for final in (0, 1):
-                            for bl in (1, 2, 3):
-                                out.append((M, tuple(lens), opening, pickup, final, 1 + (bl == 2), 0, 0, bl))
+                            for bl in (1, 2, 3, 4, 12):
+                                out.append((M, tuple(lens), opening, pickup, final, 1 + (bl in (2, 4)), 0, 0, bl))
         return out
     for M in range(1, maxM + 1):
         lens_opts = itertools.product((0, 1, 2), repeat=M) if (tier == 'quick' or M <= 3) else itertools.product((0, 1), repeat=M)
@@ -68,7 +68,7 @@ def _shapes(tier):
                                 for fk in (1, 2, 3):
                                     out.append((M, tuple(lens), opening, pickup, final, ks, ts, fk, 0))
                             if M <= 3 and (ks, ts) == (1, 0) and sum(lens) <= 3:
-                                for bl in (1, 2, 3):
+                                for bl in (1, 2, 3, 4, 12):
                                     out.append((M, tuple(lens), opening, pickup, final, ks, ts, 0, bl))
     return out
 
@@ -159,6 +159,9 @@ def _b_body(i):
     check(sorted(map(tuple, parts)) == sorted(map(tuple, full)),
           f'single-measure exports give data lines {parts}, the full export has {full}')
     check(parts == full, f'single-measure exports are not in score order: {parts} vs {full}')
+    # export options must not leak from one call into the next: after ranged exports a plain export is the full score again
+    again = rm.data_lines(rm.parse(kp.dumps(doc, **kw)))
+    check(again == full, f'a plain dumps after ranged exports gives data lines {again}, the first full export had {full}')
     # after those exports the document still has M measures and still rejects an end beyond M
     check(doc.measures_count() == M and list(doc) == list(range(1, M + 1)), f'after ranged exports: measures_count() = {doc.measures_count()}, list(doc) = {list(doc)}')
     for bad in ((1, M + 1), (M + 1, M + 1), (2, 1) if M >= 2 else (1, 0)):
@@ -167,7 +170,64 @@ def _b_body(i):
         except ValueError:
             continue
         check(False, f'after ranged exports the out-of-range pair {bad} (M={M}) was accepted: {out!r}')
+    try:
+        again = rm.data_lines(rm.parse(kp.dumps(doc, **kw)))
+    except ValueError as e:
+        check(False, f'a plain dumps after a rejected range raises {e!r}')
+    check(again == full, f'a plain dumps after rejected ranges gives data lines {again}, the first full export had {full}')
+    if M >= 2:
+        # half-open ranges after a full range: from_measure alone runs to the end, to_measure alone starts at the beginning
+        kp.dumps(doc, from_measure=1, to_measure=1, **kw)
+        tail = rm.data_lines(rm.parse(kp.dumps(doc, from_measure=2, **kw)))
+        exp_tail = rm.data_lines(_expected(sc, 2, M, list(range(ks))))
+        check(tail == exp_tail, f'from_measure=2 alone after a 1..1 export gives data lines {tail}, expected {exp_tail}')
+        kp.dumps(doc, from_measure=M, to_measure=M, **kw)
+        head = rm.data_lines(rm.parse(kp.dumps(doc, to_measure=1, **kw)))
+        exp_head = rm.data_lines(_expected(sc, 1, 1, list(range(ks))))
+        check(head == exp_head, f'to_measure=1 alone after an M..M export gives data lines {head}, expected {exp_head}')
     return True
+
+
+LONG_M = (80, 320, 1000)
+
+
+def ob_c(k: int, a: int, b: int) -> bool:
+    """Long scores: M measures of 4 data rows; the range arithmetic on symbolic integers far from the ends."""
+    n = ctx.pick(2, 3)
+    assume(0 <= k < n)
+    kc = choose(k, n)
+    sc, doc, M = _long(kc)
+    try:
+        out = kp.dumps(doc, from_measure=a, to_measure=b)
+    except ValueError:
+        check(a < 0 or b > M or b < a, lambda: f'ValueError for a valid range from_measure={concrete(a)} to_measure={concrete(b)} (M={M})')
+        return True
+    check(not (a < 0 or b > M or b < a), lambda: f'out-of-range pair from_measure={concrete(a)} to_measure={concrete(b)} (M={M}) was not rejected with ValueError')
+    if a == 0:
+        return True
+    # the exported range is compared for a window of pairs: the first three and last three measures, and three in the middle
+    assume(a <= 3 or a >= M - 2 or M // 2 - 1 <= a <= M // 2 + 1)
+    assume(b - a <= 2 or b == M)
+    check(SENTINEL not in out, 'tripwire: opaque number sentinel reached exported text')
+    ac, bc = concrete(a), concrete(b)
+    exp = _expected(sc, ac, bc, [0])
+    got = rm.parse(concrete(out))
+    check(got == exp, lambda: f'M={M} from_measure={ac} to_measure={bc}: exported {len(got)} lines {got[:6]}..., expected {len(exp)} lines {exp[:6]}...')
+    return True
+
+
+_LONGS = {}
+
+
+@native
+def _long(k):
+    if k not in _LONGS:
+        M = LONG_M[k]
+        sc = rm.build(M, (4,) * M, 1, 0, 1, 1, 0)
+        doc, errs = kp.loads(sc.text)
+        assert not errs
+        _LONGS[k] = (sc, doc, len(rm.measure_starts(sc)))
+    return _LONGS[k]
 
 
 def _desc(shape, a=None, b=None):
@@ -191,6 +251,14 @@ OBLIGATIONS = [
                'thorough': 'M<=3 with 0..2 rows per measure, M=4 with 0..1 rows, pickup 0..2, + {2 kern + text}; first-cell kinds for M<=2; blank-line variants for M<=3'},
        assumptions=['symbolic numbers are rendered opaquely inside error messages (tripwire: the sentinel must not reach exported text; native re-runs use real formatting)'],
        describe=_desc),
+    Ob(id='C07.c', fn=ob_c, title='long scores: range export and rejection for all integer pairs on scores of 80..1000 measures',
+       shard_of=lambda k, a, b: k, shards={'quick': 2, 'thorough': 3}, budget_s={'quick': 170, 'thorough': 1200}, opaque_numbers=True, untrace=UNTRACE,
+       witnesses=[{'k': 0, 'a': 2, 'b': 3}, {'k': 1, 'a': -1, 'b': 3}], min_confirmed=20,
+       symbolic='from_measure, to_measure: unbounded integers (rejection and acceptance decided for ALL pairs; exported text compared for the pairs of the window)',
+       enumerated='score length',
+       bounds={'quick': 'one-spine scores of 80 and 320 measures x 4 data rows (closing barline counted: M = 81 / 321); text compared for a in the first / middle / last three measures and b - a <= 2 or b = M',
+               'thorough': '+ 1000 measures'},
+       assumptions=['symbolic numbers are rendered opaquely inside error messages (tripwire-guarded)']),
     Ob(id='C07.b', fn=ob_b, title='single-measure exports partition the data lines; iteration yields 1..M',
        shard_of=lambda shape: shape, shards={'quick': 8, 'thorough': 16}, budget_s={'quick': 120, 'thorough': 900},
        witnesses=[{'shape': 5}], min_confirmed=200, enumerated='score shape selector',
